@@ -13,6 +13,7 @@ mod c17;
 mod probes;
 mod evidence;
 mod fixed;
+mod fuzz;
 mod props;
 
 use serde_json::Value;
@@ -57,6 +58,13 @@ fn main() {
                 println!("corpus written to /verif/corpus");
                 0
             }
+            Err(e) => {
+                eprintln!("{}", e);
+                2
+            }
+        },
+        "fuzz-build" => match fuzz::build_target("fz_subjects").and_then(|_| fuzz::build_target("fz_cursor")) {
+            Ok(_) => 0,
             Err(e) => {
                 eprintln!("{}", e);
                 2
